@@ -7,6 +7,9 @@ import NmVerif.Simd.VertLemmas
 import NmVerif.Simd.OuterLemmas
 import NmVerif.Simd.BinaryLemmas
 import NmVerif.Simd.NdLemmas
+import NmVerif.Simd.AxisLemmas
+import NmVerif.Simd.OuterEvalLemmas
+import NmVerif.Simd.MatmulLemmas
 /-
   C12 — SIMD evaluation equals scalar evaluation for every size, shape and layout.
   Only property statements (+ non-vacuity examples, counterexamples of known findings) live here.
@@ -610,13 +613,89 @@ theorem simdReduceAxis_nonLastAxis_eq_fold (N : Nat) (hN : 0 < N) (packOp : List
     congr 1
     omega
 
-/- PARTIAL (not proved; kept as the full statement): for a well-formed row-major `a` of any rank, `axis < a.shape.length - 1`,
-   more than one output element, over a commutative monoid `(op, e)`:
-     simdReduceAxis N packOp op (some e) a axis = scalarReduceAxis op a axis
-   What is proved instead: `simdReduceAxis_nonLastAxis_eq_fold` above (the dispatcher on the n-d operand = column-wise fold of
-   the buffer rows `ρ·A … ρ·A+A−1`, via `simdReduceVertical_eq_loop` / `_eq_fold`); missing is only the identification of that
-   row-wise fold with the cell-wise `scalarReduceAxis` (mixed-radix decomposition of `ndindex (pre ++ 1 :: post)`).
-   The last-axis case is proved in full (`simdReduceAxis_lastAxis_eq_scalar`). -/
+/-- **n-d reduction over a non-last axis: `eval_reduction` = the scalar reference** `scalarReduceAxis` on the n-d operand,
+    cell by cell: the row-wise column fold of `simdReduceAxis_nonLastAxis_eq_fold` is, through the mixed-radix decomposition
+    of `ndindex (pre ++ 1 :: post)`, the left fold of `a[I, 0..A-1, J]` from its first element.  No re-association happens on
+    this path: only `e ⊕ x = x` is used (weaker than the commutative-monoid hypothesis of the last axis). -/
+theorem simdReduceAxis_nonLastAxis_eq_scalar (N : Nat) (hN : 0 < N) (packOp : List α → List α → List α)
+    (op : α → α → α) (e : α) (hid : ∀ x, op e x = x) (hp : LaneWise2 N packOp op)
+    (a : NDA α) (pre post : List Nat) (A : Nat) (hsh : a.shape = pre ++ A :: post) (hpost : post ≠ []) (hw : a.WF)
+    (hr : a.colMajor = false) (hposPre : Pos pre) (hposPost : Pos post) (hA : 0 < A) (hout : prod pre * prod post ≠ 1) :
+    simdReduceAxis N packOp op (some e) a (pre.length : Int) = scalarReduceAxis op a pre.length := by
+  obtain ⟨res, h1, h2, h3⟩ := simdReduceAxis_nonLastAxis_eq_fold N hN packOp op e hp a pre post A hsh hpost hw hr hA
+    (prod_pos hposPre) hout
+  have hlen : a.data.length = prod pre * A * prod post := by
+    have : a.data.length = prod a.shape := hw
+    rw [this, hsh, prod_mid]
+  rw [h1, scalarReduceAxis_cells op a pre post A hsh hr hposPre hposPost]
+  exact (axisCells_of_rowFold op e hid a.data res (prod pre) A (prod post) hA (prod_pos hposPost) hlen h2 h3).symm
+
+/-- **SIMD reduction over ANY axis = the scalar reference**, for every rank, every shape with positive extents, every
+    axis `0 ≤ axis < dim` written either way (`axis` or `axis − dim`), every lane count, operands of either layout, ops with
+    or without `identity()`; where the op has an identity `e` (the value the code pads / pre-fills / starts with),
+    `(op, e)` is a commutative monoid — "equal up to re-association of the reduction".  The buffer is the row-major
+    keepdims-shaped result (the same buffer serves `keepdims=false`, see `simdReduceAxisK_eq_scalar`). -/
+theorem simdReduceAxis_eq_scalar (N : Nat) (hN : 0 < N) (packOp : List α → List α → List α)
+    (op : α → α → α) (identity : Option α) (hm : ∀ e, identity = some e → IsCommMonoid op e)
+    (hp : LaneWise2 N packOp op) (a : NDA α) (hw : a.WF) (hs : Pos a.shape) (axis : Nat) (hlt : axis < a.shape.length)
+    (axisI : Int) (hax : axisI = (axis : Int) ∨ axisI = (axis : Int) - (a.shape.length : Int)) :
+    simdReduceAxis N packOp op identity a axisI = scalarReduceAxis op a axis := by
+  -- the written axis
+  have hnorm : simdReduceAxis N packOp op identity a axisI = simdReduceAxis N packOp op identity a (axis : Int) := by
+    rcases hax with h | h
+    · rw [h]
+    · rw [h]; exact simdReduceAxis_negative_axis N packOp op identity a axis hlt
+  rw [hnorm]
+  cases hc : a.colMajor with
+  | true => exact simdReduceAxis_fallback_eq_scalar N packOp op identity a axis hlt (Or.inl hc)
+  | false =>
+  cases hi : identity with
+  | none => exact simdReduceAxis_fallback_eq_scalar N packOp op none a axis hlt (Or.inr rfl)
+  | some e =>
+  have hme := hm e hi
+  obtain ⟨pre, A, post, hsh, hpl⟩ : ∃ pre A post, a.shape = pre ++ A :: post ∧ pre.length = axis :=
+    ⟨a.shape.take axis, a.shape[axis], a.shape.drop (axis + 1),
+     by rw [List.getElem_cons_drop, List.take_append_drop], by rw [List.length_take]; omega⟩
+  subst hpl
+  have hposPre : Pos pre := fun x hx => hs x (by rw [hsh]; simp [hx])
+  have hposPost : Pos post := fun x hx => hs x (by rw [hsh]; simp [hx])
+  have hA : 0 < A := hs A (by rw [hsh]; simp)
+  by_cases hout : prod pre * prod post = 1
+  · -- one output element
+    rw [simdReduceAxis_rowMajor N packOp op e a hc (pre.length : Int) pre.length hlt (Or.inl rfl)]
+    have hk : prod (keepShape a.shape pre.length) = 1 := by
+      unfold keepShape; rw [hsh, shape_set_mid, prod_mid]; simpa using hout
+    rw [if_pos hk, simdReduceAll_eq_fold N hN packOp op e hme hp a hw hc hs,
+        scalarReduceAxis_outSize1 op a pre post A hsh hw hc hposPre hposPost hA hout]
+  · by_cases hpost : post = []
+    · subst hpost
+      have hout' : prod pre ≠ 1 := by simpa [prod] using hout
+      exact simdReduceAxis_lastAxis_eq_scalar N hN packOp op e hme hp a pre A hsh hw hc hposPre hA hout'
+        (pre.length : Int) (Or.inr rfl)
+    · exact simdReduceAxis_nonLastAxis_eq_scalar N hN packOp op e hme.id_left hp a pre post A hsh hpost hw hc
+        hposPre hposPost hA hout
+
+/-- **keepdims both ways**: what `eval_reduction` feeds the enumerators for `keepdims=false`,
+    `insert_index(shape without axis, 1, axis)`, is the keepdims shape — the evaluator's loops do not depend on the flag -/
+theorem reduce_keepdims_normalised (shape : List Nat) (axis : Nat) (h : axis < shape.length) (keep : Bool) :
+    normOutShape (reduceOutShape shape axis keep) axis keep = keepShape shape axis :=
+  normOutShape_reduceOutShape shape axis h keep
+
+/-- … and the NumPy reference buffer does not depend on it either (operand of either layout) -/
+theorem scalarReduce_keepdims_same_buffer (op : α → α → α) (a : NDA α) (axis : Nat) (h : axis < a.shape.length) (keep : Bool) :
+    scalarReduceAxisK op a axis keep = scalarReduceAxis op a axis := scalarReduceAxisK_eq op a axis h keep
+
+/-- **SIMD reduction over any axis, `keepdims` on or off = NumPy `op.reduce(a, axis, keepdims)`** as the scalar evaluator
+    computes it: same shape (`reduceOutShape`), same row-major buffer; hypotheses as `simdReduceAxis_eq_scalar`. -/
+theorem simdReduceAxisK_eq_scalar (N : Nat) (hN : 0 < N) (packOp : List α → List α → List α)
+    (op : α → α → α) (identity : Option α) (hm : ∀ e, identity = some e → IsCommMonoid op e)
+    (hp : LaneWise2 N packOp op) (a : NDA α) (hw : a.WF) (hs : Pos a.shape) (axis : Nat) (hlt : axis < a.shape.length)
+    (axisI : Int) (hax : axisI = (axis : Int) ∨ axisI = (axis : Int) - (a.shape.length : Int)) (keep : Bool) :
+    simdReduceAxisK N packOp op identity a axisI keep
+      = (scalarReduceAxisK op a axis keep).map (fun b => (reduceOutShape a.shape axis keep, b)) := by
+  rw [simdReduceAxisK_eq N packOp op identity a axis hlt axisI hax keep,
+      simdReduceAxis_eq_scalar N hN packOp op identity hm hp a hw hs axis hlt axisI hax,
+      scalarReduceAxisK_eq op a axis hlt keep]
 
 /-! ## eval_outer: the enumerator, operands of any rank -/
 
@@ -634,6 +713,58 @@ theorem outer_covers_once (N : Nat) (hN : 0 < N) (lhs rhs pre : List Nat) (n : N
   have h := (outer_contig N (lhs ++ rhs) lhs rhs pre n hN hsh hsh hpos (prod pre) (Nat.le_refl _)).blocks
   simp only [Nat.sub_zero] at h
   rw [hsz, h, hsh, prod_snoc, ← List.range_eq_range']
+
+/-- **the lhs / rhs offsets of every enumerator step are the outer-product operands**: lane `j` of step `i` writes output cell
+    `o = out.off + j`; the (always broadcast) lhs element of the step is `lhs[o / |rhs|]` and the rhs element of that lane is
+    `rhs[o % |rhs|]` — NumPy `op.outer` on row-major buffers — for operands of any rank (rhs of rank ≥ 1), every last extent
+    (also not a multiple of `N`) and all three rank-dependent branches of `outer_simd` (`dim == 1`, `== 2`, general). -/
+theorem outer_operand_offsets (N : Nat) (hN : 0 < N) (lhs rhs : List Nat) (hposL : Pos lhs) (hposR : Pos rhs) (hne : rhs ≠ [])
+    (i : Nat) (hi : i < outerSize N (lhs ++ rhs) lhs rhs)
+    (j : Nat) (hj : j < outerLen N (outerAt N (lhs ++ rhs) lhs rhs i).1) :
+    (outerAt N (lhs ++ rhs) lhs rhs i).2.1.off = ((outerAt N (lhs ++ rhs) lhs rhs i).1.off + j) / prod rhs
+    ∧ (outerAt N (lhs ++ rhs) lhs rhs i).2.2.off + j = ((outerAt N (lhs ++ rhs) lhs rhs i).1.off + j) % prod rhs := by
+  obtain ⟨rpre, n, rfl⟩ : ∃ rpre n, rhs = rpre ++ [n] := ⟨rhs.dropLast, rhs.getLast hne, (List.dropLast_concat_getLast hne).symm⟩
+  have hposR' : Pos rpre := fun x hx => hposR x (by simp [hx])
+  have hsz : outerSize N (lhs ++ (rpre ++ [n])) lhs (rpre ++ [n]) = prod (lhs ++ rpre) * oCs N n := by
+    unfold outerSize
+    rw [outerSimdShape_eq N _ lhs (rpre ++ [n]) (lhs ++ rpre) n (by simp) (by simp), prod_snoc]
+  rw [hsz] at hi
+  exact outerAt_operand_lanes N hN lhs rpre n hposL hposR' i hi j hj
+
+/-- **SIMD outer = the scalar evaluator's outer product** `out[i ++ j] = f(a[i], b[j])`, at evaluator level: every lane count,
+    operands of any rank (`b` of rank ≥ 1) and any positive extents, row-major; the result is `some _`: no load or store
+    leaves a buffer. -/
+theorem simdOuter_eq_scalar (N : Nat) (hN : 0 < N) (packF : List α → List α → List β) (f : α → α → β)
+    (hpf : LaneWise2 N packF f) (a b : NDA α) (hwa : a.WF) (hwb : b.WF)
+    (hra : a.colMajor = false) (hrb : b.colMajor = false) (hsa : Pos a.shape) (hsb : Pos b.shape) (hne : b.shape ≠ [])
+    (out : List β) (ho : out.length = prod (a.shape ++ b.shape)) :
+    simdOuter N packF f a.data b.data (a.shape ++ b.shape) a.shape b.shape out = scalarOuter f a b := by
+  obtain ⟨rpre, n, hb⟩ : ∃ rpre n, b.shape = rpre ++ [n] :=
+    ⟨b.shape.dropLast, b.shape.getLast hne, (List.dropLast_concat_getLast hne).symm⟩
+  have hposR : Pos rpre := fun x hx => hsb x (by rw [hb]; simp [hx])
+  have hn : 0 < n := hsb n (by rw [hb]; simp)
+  have hY : b.data.length = prod rpre * n := by
+    have : b.data.length = prod b.shape := hwb
+    rw [this, hb, prod_snoc]
+  unfold scalarOuter
+  rw [logical_rowMajor a hwa hra hsa, logical_rowMajor b hwb hrb hsb]
+  rw [hb] at ho ⊢
+  exact simdOuter_eq_cells N hN packF f hpf a.data b.data a.shape rpre n hsa hposR hn hwa hY out
+    (by rw [ho, prod_append, prod_snoc])
+
+/-- … and with operands of either layout (`operator()`: any column-major operand → scalar evaluator) -/
+theorem simdEvalOuter_eq_scalar (N : Nat) (hN : 0 < N) (packF : List α → List α → List β) (f : α → α → β)
+    (hpf : LaneWise2 N packF f) (a b : NDA α) (hwa : a.WF) (hwb : b.WF)
+    (hsa : Pos a.shape) (hsb : Pos b.shape) (hne : b.shape ≠ [])
+    (out : List β) (ho : out.length = prod (a.shape ++ b.shape)) :
+    simdEvalOuter N packF f a b out = scalarOuter f a b := by
+  unfold simdEvalOuter
+  cases hca : a.colMajor with
+  | true => simp
+  | false =>
+    cases hcb : b.colMajor with
+    | true => simp
+    | false => simpa using simdOuter_eq_scalar N hN packF f hpf a b hwa hwb hca hcb hsa hsb hne out ho
 
 /-! ## eval_matmul: the inner enumerator -/
 
@@ -657,6 +788,88 @@ theorem matmul_inner_covers_once (N K Nn o : Nat) (hN : 0 < N) :
       (fun s _ => by simp [matmulInner])).blocks
     simp only [Nat.add_sub_cancel_left] at h
     exact h
+
+/-- **the order / association of `eval_matmul`, stated explicitly, and no buffer left**: output element `o` of the
+    `(M, Nn)` result is `matmulCell`: the left-to-right horizontal sum (`add`) of `N` lane accumulators, lane `l` being
+    the chain `fma(row[sN+l], col[sN+l], ·)` over the registers `s = 0 … ⌈K/N⌉−1` of row `o / Nn` of the row-major lhs and
+    column `o % Nn` of the column-major rhs, both zero-padded to a multiple of `N`, started from `0` — exactly the `K`
+    elements of that row and column, for every `K > 0`, `M`, `Nn` and lane count.  No algebraic law is used: this is
+    what the code computes also in floating point, PROVIDED the `fmadd` intrinsic is lane-wise `fma` (with its own,
+    single rounding — the rounding itself is outside the model). -/
+theorem simdMatmul_eq_laneSums (N : Nat) (hN : 0 < N) (fma : α → α → α → α) (add : α → α → α) (zero : α)
+    (lhs rhs : List α) (M K Nn : Nat) (hK : 0 < K) (hl : lhs.length = M * K) (hr : rhs.length = Nn * K)
+    (out : List α) (ho : out.length = M * Nn) :
+    simdMatmul N fma add zero lhs rhs M K Nn out = matmulRef fma add zero N lhs rhs M K Nn
+    ∧ (matmulRef fma add zero N lhs rhs M K Nn).isSome :=
+  simdMatmul_eq_ref N hN fma add zero lhs rhs M K Nn hK hl hr out ho
+
+/-- **SIMD matmul element `(i,j)` = Σ_{k<K} lhs[i,k]·rhs[k,j]** (the scalar reference `scalarMatmul`: the `K` products folded
+    left to right from `0`), in exact arithmetic: `(add, 0)` a commutative monoid (the lane-strided re-association),
+    `fma x y z = x·y + z` (a hardware `fmadd` rounds once instead of twice: outside the model) and `0·0 = 0` (padding lanes). -/
+theorem simdMatmul_eq_scalar (N : Nat) (hN : 0 < N) (fma : α → α → α → α) (mul add : α → α → α) (zero : α)
+    (hm : IsCommMonoid add zero) (hfma : ∀ x y z, fma x y z = add (mul x y) z) (hz : mul zero zero = zero)
+    (lhs rhs : List α) (M K Nn : Nat) (hK : 0 < K) (hl : lhs.length = M * K) (hr : rhs.length = Nn * K)
+    (out : List α) (ho : out.length = M * Nn) :
+    simdMatmul N fma add zero lhs rhs M K Nn out = scalarMatmul mul add zero lhs rhs M K Nn :=
+  simdMatmul_eq_scalar' hm fma mul hfma hz N hN lhs rhs M K Nn hK hl hr out ho
+
+/-- **`operator()` on a matmul view, with an effective layout test on the lhs (the tree after
+    fixes/C12-matmul-lhs-layout-fallback.diff) = the n-d reference** `out[m,n] = Σ_k a[m,k]·b[k,n]` for every operand pair that
+    is a program: a column-major lhs (any rhs) is handed to the scalar evaluator, a row-major lhs with a column-major rhs
+    goes through `eval_matmul` (a row-major rhs under a row-major lhs is rejected at compile time). -/
+theorem simdEvalMatmul_repaired_eq_scalar (N : Nat) (hN : 0 < N) (fma : α → α → α → α) (mul add : α → α → α) (zero : α)
+    (hm : IsCommMonoid add zero) (hfma : ∀ x y z, fma x y z = add (mul x y) z) (hz : mul zero zero = zero)
+    (a b : NDA α) (M K Nn : Nat) (ha : a.shape = [M, K]) (hb : b.shape = [K, Nn]) (hwa : a.WF) (hwb : b.WF) (hK : 0 < K)
+    (hprog : a.colMajor = true ∨ b.colMajor = true) (out : List α) (ho : out.length = M * Nn) :
+    simdEvalMatmulWith true N fma mul add zero a b M K Nn out = scalarMatmulNDA mul add zero a b M K Nn := by
+  unfold simdEvalMatmulWith
+  cases hca : a.colMajor with
+  | true => simp
+  | false =>
+    have hcb : b.colMajor = true := by
+      rcases hprog with h | h
+      · rw [hca] at h; cases h
+      · exact h
+    have hla : a.data.length = M * K := by
+      have : a.data.length = prod a.shape := hwa
+      rw [this, ha]; simp [prod]
+    have hlb : b.data.length = Nn * K := by
+      have : b.data.length = prod b.shape := hwb
+      rw [this, hb]; simp [prod, Nat.mul_comm]
+    simp only [hcb, Bool.and_false, Bool.false_eq_true, if_false, if_true]
+    rw [simdMatmul_eq_scalar N hN fma mul add zero hm hfma hz a.data b.data M K Nn hK hla hlb out ho,
+        scalarMatmulNDA_rowCol mul add zero a b M K Nn ha hb hca hcb]
+
+/-- **`operator()` on a matmul view, the tree as it is = the n-d reference on the operand pair `eval_matmul` is written for**:
+    row-major lhs, column-major rhs.  (For a column-major lhs the repaired `operator()` falls back to the scalar evaluator:
+    `simdEvalMatmul_repaired_eq_scalar`, instance `simdEvalMatmul_colMajorLhs_regression`.) -/
+theorem simdEvalMatmul_eq_scalar (N : Nat) (hN : 0 < N) (fma : α → α → α → α) (mul add : α → α → α) (zero : α)
+    (hm : IsCommMonoid add zero) (hfma : ∀ x y z, fma x y z = add (mul x y) z) (hz : mul zero zero = zero)
+    (a b : NDA α) (M K Nn : Nat) (ha : a.shape = [M, K]) (hb : b.shape = [K, Nn]) (hwa : a.WF) (hwb : b.WF) (hK : 0 < K)
+    (hra : a.colMajor = false) (hcb : b.colMajor = true) (out : List α) (ho : out.length = M * Nn) :
+    simdEvalMatmul N fma mul add zero a b M K Nn out = scalarMatmulNDA mul add zero a b M K Nn := by
+  have hla : a.data.length = M * K := by
+    have : a.data.length = prod a.shape := hwa
+    rw [this, ha]; simp [prod]
+  have hlb : b.data.length = Nn * K := by
+    have : b.data.length = prod b.shape := hwb
+    rw [this, hb]; simp [prod, Nat.mul_comm]
+  unfold simdEvalMatmul simdEvalMatmulWith
+  simp only [hra, hcb, Bool.and_false, Bool.false_eq_true, if_false, if_true]
+  rw [simdMatmul_eq_scalar N hN fma mul add zero hm hfma hz a.data b.data M K Nn hK hla hlb out ho,
+      scalarMatmulNDA_rowCol mul add zero a b M K Nn ha hb hra hcb]
+
+/-- **regression guard for the repaired defect matmul.column-major-lhs** (fix commit 8eebbc3): with a column-major lhs
+    `operator()` falls back to the scalar evaluator; both operands with buffer `1..6` in column-major layout
+    (`a = [[1,3,5],[2,4,6]]`, `b = [[1,4],[2,5],[3,6]]`) give `a·b = [22,49,28,64]`.  Before the repair the layout test never
+    fired (`simdEvalMatmulWith false`): `eval_matmul` read the lhs buffer as if it were row-major and gave `[14,32,32,77]`. -/
+theorem simdEvalMatmul_colMajorLhs_regression :
+    simdEvalMatmul 2 (fun x y z => x * y + z) (· * ·) (· + ·) (0 : Int) ⟨[2,3], true, [1,2,3,4,5,6]⟩ ⟨[3,2], true, [1,2,3,4,5,6]⟩
+        2 3 2 [0,0,0,0]
+      = scalarMatmulNDA (· * ·) (· + ·) (0 : Int) ⟨[2,3], true, [1,2,3,4,5,6]⟩ ⟨[3,2], true, [1,2,3,4,5,6]⟩ 2 3 2
+    ∧ simdEvalMatmulWith false 2 (fun x y z => x * y + z) (· * ·) (· + ·) (0 : Int) ⟨[2,3], true, [1,2,3,4,5,6]⟩ ⟨[3,2], true, [1,2,3,4,5,6]⟩
+        2 3 2 [0,0,0,0]
+      ≠ scalarMatmulNDA (· * ·) (· + ·) (0 : Int) ⟨[2,3], true, [1,2,3,4,5,6]⟩ ⟨[3,2], true, [1,2,3,4,5,6]⟩ 2 3 2 := by decide
 
 /-! non-vacuity -/
 example : LaneWise1 4 (fun xs : List Nat => xs.map (· + 1)) (· + 1) := fun _ _ => rfl
@@ -689,5 +902,34 @@ example : simdReduceAll 2 (List.zipWith (· * ·)) (· * ·) (1 : Int) ⟨[2,2],
 example : simdReduceAxis 4 (List.zipWith (· - ·)) (· - ·) (none : Option Int) ⟨[2,3], false, [1,2,3,4,5,6]⟩ 0 = some [-3,-3,-3]
     ∧ simdReduceAxis 4 (List.zipWith (· + ·)) (· + ·) (some (0 : Int)) ⟨[2,3], false, [1,2,3,4,5,6]⟩ (-2) = some [5,7,9] := by decide
 example : simdReduceAll 4 (List.zipWith (· + ·)) (· + ·) (0 : Int) ⟨[2,5], false, [1,2,3,4,5,6,7,8,9,10]⟩ = some 55 := by decide
+example : simdReduceAxis 4 (List.zipWith (· + ·)) (· + ·) (some (0 : Int)) ⟨[2,3,2], false, [1,2,3,4,5,6,7,8,9,10,11,12]⟩ 1 = some [9,12,27,30]
+    ∧ scalarReduceAxis (· + ·) (⟨[2,3,2], false, [1,2,3,4,5,6,7,8,9,10,11,12]⟩ : NDA Int) 1 = some [9,12,27,30]
+    ∧ (⟨[2,3,2], false, [1,2,3,4,5,6,7,8,9,10,11,12]⟩ : NDA Int).WF ∧ Pos [2,3,2] :=
+  ⟨by decide, by decide, by simp [NDA.WF, prod], by decide⟩
+example : simdReduceAxisK 2 (List.zipWith (· * ·)) (· * ·) (some (1 : Int)) ⟨[2,3,2], false, [1,2,3,4,5,6,7,8,9,10,11,12]⟩ (-3) false
+      = some ([3,2], [7,16,27,40,55,72])
+    ∧ scalarReduceAxisK (· * ·) (⟨[2,3,2], false, [1,2,3,4,5,6,7,8,9,10,11,12]⟩ : NDA Int) 0 false = some [7,16,27,40,55,72]
+    ∧ reduceOutShape [2,3,2] 0 false = [3,2] ∧ normOutShape [3,2] 0 false = [1,3,2] := by decide
+example : axisCell (· + ·) ([1,2,3,4,5,6,7,8,9,10,11,12] : List Int) 3 2 3 = some 30 := by decide
+example : simdOuter 4 (List.zipWith (· + ·)) (· + ·) [10,20] [1,2,3,4,5,6] [2,6] [2] [6] (List.replicate 12 (0 : Int))
+      = some [11,12,13,14,15,16,21,22,23,24,25,26]
+    ∧ scalarOuter (· + ·) (⟨[2], false, [10,20]⟩ : NDA Int) ⟨[6], false, [1,2,3,4,5,6]⟩ = some [11,12,13,14,15,16,21,22,23,24,25,26] := by decide
+example : (outerAt 4 [2,3,6] [2] [3,6] 9).1 = ⟨Tag.PAD 2, 28⟩ ∧ (outerAt 4 [2,3,6] [2] [3,6] 9).2.1.off = (28 + 1) / 18
+    ∧ (outerAt 4 [2,3,6] [2] [3,6] 9).2.2.off + 1 = (28 + 1) % 18 ∧ outerLen 4 (outerAt 4 [2,3,6] [2] [3,6] 9).1 = 2 := by decide
+example : simdMatmul 4 (fun x y z => x * y + z) (· + ·) (0 : Int) [1,2,3,4,5,6, 7,8,9,10,11,12] [1,0,1,0,1,0, 2,2,2,2,2,2] 2 6 2 [0,0,0,0]
+      = some [9, 42, 27, 114]
+    ∧ scalarMatmul (· * ·) (· + ·) (0 : Int) [1,2,3,4,5,6, 7,8,9,10,11,12] [1,0,1,0,1,0, 2,2,2,2,2,2] 2 6 2 = some [9, 42, 27, 114]
+    ∧ matmulRef (fun x y z => x * y + z) (· + ·) (0 : Int) 4 [1,2,3,4,5,6, 7,8,9,10,11,12] [1,0,1,0,1,0, 2,2,2,2,2,2] 2 6 2 = some [9, 42, 27, 114] := by decide
+example : laneAccs (fun x y z => x * y + z) (0 : Int) 4 [1,2,3,4,5,6] [2,2,2,2,2,2] 2 = [12, 16, 6, 8]
+    ∧ pchunk (0 : Int) 4 [1,2,3,4,5,6] 1 = [5,6,0,0] := by decide
+example : simdEvalMatmulWith true 2 (fun x y z => x * y + z) (· * ·) (· + ·) (0 : Int) ⟨[2,3], true, [1,4,2,5,3,6]⟩ ⟨[3,2], false, [1,2,3,4,5,6]⟩ 2 3 2 [0,0,0,0]
+      = some [22, 28, 49, 64]
+    ∧ simdEvalMatmul 2 (fun x y z => x * y + z) (· * ·) (· + ·) (0 : Int) ⟨[2,3], false, [1,2,3,4,5,6]⟩ ⟨[3,2], true, [1,3,5,2,4,6]⟩ 2 3 2 [0,0,0,0]
+      = some [22, 28, 49, 64]
+    ∧ simdEvalMatmulWith false 2 (fun x y z => x * y + z) (· * ·) (· + ·) (0 : Int) ⟨[2,3], true, [1,2,3,4,5,6]⟩ ⟨[3,2], true, [1,2,3,4,5,6]⟩ 2 3 2 [0,0,0,0]
+      = some [14, 32, 32, 77]
+    ∧ simdEvalMatmul 2 (fun x y z => x * y + z) (· * ·) (· + ·) (0 : Int) ⟨[2,3], true, [1,2,3,4,5,6]⟩ ⟨[3,2], true, [1,2,3,4,5,6]⟩ 2 3 2 [0,0,0,0]
+      = some [22, 49, 28, 64]
+    ∧ scalarMatmulNDA (· * ·) (· + ·) (0 : Int) ⟨[2,3], true, [1,2,3,4,5,6]⟩ ⟨[3,2], true, [1,2,3,4,5,6]⟩ 2 3 2 = some [22, 49, 28, 64] := by decide
 
 end NmVerif.Props.C12
